@@ -98,6 +98,25 @@ func c06(w *core.World, r *core.Report) {
 			for _, st := range core.StoresToField(fn, kTMSlot) {
 				r.Check(idChecked(st, fn, id), "ID-BEFORE-EFFECT", core.Site(fn, "store transaction slot"), w.InstrPos(st), "clearing/replacing the open transaction must be reachable only after the id matched")
 			}
+			// closures of the method (deferred handlers) run whatever the id test said: they must not touch the slot or
+			// the transaction unless they test the id themselves
+			var anon func(a *ssa.Function)
+			anon = func(a *ssa.Function) {
+				for _, st := range core.StoresToField(a, kTMSlot) {
+					r.Check(idChecked(st, a, id), "ID-BEFORE-EFFECT", core.Site(fn, "store transaction slot in a closure"), w.InstrPos(st), "a deferred handler / closure of the method clears the open transaction without the id having matched (it also runs on the early return of a mismatch)")
+				}
+				for _, c := range core.OwnCalls(a) {
+					if core.CalleeIs(c, effectKeys...) {
+						r.Check(idChecked(c, a, id), "ID-BEFORE-EFFECT", core.Site(fn, "call %s in a closure", core.CalleeKey(c)), w.InstrPos(c), "a deferred handler / closure of the method touches the open transaction without the id having matched")
+					}
+				}
+				for _, b := range a.AnonFuncs {
+					anon(b)
+				}
+			}
+			for _, a := range fn.AnonFuncs {
+				anon(a)
+			}
 		})
 	}
 	// GetTransaction: non-nil transaction returned only when ids are equal
@@ -296,6 +315,20 @@ func c06(w *core.World, r *core.Report) {
 	}
 
 	ruleTryLockPair(w, r)
+
+	// ---- CLEANUP-ALWAYS (shared with C07)
+	r.Rule("CLEANUP-ALWAYS", 2, "(shared with C07) the cleanup of a failed TransactionSet cannot be refused: GetTransaction / CleanupTransaction fail only with 'no open transaction' or 'another id'.")
+	ruleCleanupOnlyIdFailures(w, r, "CLEANUP-ALWAYS")
+
+	// ---- LOCK-ORDER (shared with C16): a callback run with a mutex held that the callback's own call chain takes again
+	// (timer fired -> Rollback -> GetRollbackTransaction -> timer.Stop) wedges the datastore for good
+	{
+		roles := roleFns(w)
+		lw := w.Locks(func(e core.Edge) bool {
+			return roles[e.Caller] == "<guard cleanup>" && e.Callee != nil && core.FuncKey(e.Callee) == kCleanupTx
+		})
+		ruleLockOrder(w, r, lw)
+	}
 }
 
 func ruleTryLockPair(w *core.World, r *core.Report) {
